@@ -116,3 +116,13 @@ package dao
 //@ opt stable dao.Store, dao.Store.ps
 //@ opt opaque-callees (*BinWriter).
 //@ call Store).Put requires[stub] len(arg1) > len(key) ==> lastseq(Put) > lastseq(Get)
+
+// C09: a range scan over contract storage runs on a prefix of its own - not the DAO's shared key
+// buffer - so that the callback may use the DAO without moving the range under the scan.
+//@ prop C09
+//@ func (*Simple).Seek
+//@ may-panic
+//@ opt frame off
+//@ requires dao != nil && dao.Store != nil
+//@ call (*MemCachedStore).Seek requires[ownprefix] fresh(arg1.Prefix) || len(arg1.Prefix) == 0
+//@ call (*MemCachedStore).Seek requires[range] arg1.Backwards == rng.Backwards && same(arg1.Start, rng.Start)
